@@ -466,7 +466,8 @@ func GenValue(t *rapid.T, pm *Param) string {
 	if mode < 7 {
 		var cands []string
 		for _, c := range []string{"1", "11", "a", "ab", "b1", "aa", "ba", "a1", "1a", "abc", "", "digit", "a/b", "1/1", "x.y", "a-b", "a.b", "img", "doc", "yz", "x",
-			"a\nb", "1\n2", "a b", "a%2Fb", "100%", "é", "a\x00b"} {
+			"a\nb", "1\n2", "a b", "a%2Fb", "100%", "é", "a\x00b",
+			"0", "9", "09", "90", "A", "Z", "az", "AZ", "a0Z9", "zZ", "_", "a_b"} { // the ends of the ranges 0-9, a-z, A-Z and what lies just outside
 			if pm.Accepts(c) {
 				cands = append(cands, c)
 			}
